@@ -6,9 +6,12 @@ EXTENDS Integers, Sequences, FiniteSets, Json, TLC
 CONSTANT Part
 
 Kinds == {"r8", "r16", "r32", "sreg", "creg", "imm_s", "imm_l", "m16", "m32", "bm", "wm", "dm", "lab", "undef", "str", "chr"}
+\* segment:offset operands (far pointers) whose parts are of unusual kinds (C13)
+FarKinds == {"far_ii", "far_kw", "far_es", "far_ec", "far_bs", "far_il", "far_li", "far_ri", "far_noff"}
 Shapes ==
   CASE Part = "n0" -> {<< >>}
     [] Part = "n1" -> {<<a>> : a \in Kinds}
+    [] Part = "far" -> {<<a>> : a \in FarKinds} \cup {<<a, "imm_s">> : a \in FarKinds}
     [] Part = "n2" -> {<<a, b>> : a \in Kinds, b \in Kinds}
     [] Part = "n3" -> {<<a, b, "imm_s">> : a \in {"r16", "r32", "wm"}, b \in {"r16", "r32", "m16", "imm_s", "undef"}}
                       \cup {<<a, b, c3>> : a \in {"r8", "sreg", "lab"}, b \in {"r8", "imm_l", "str"}, c3 \in {"r16", "m32", "lab", "chr"}}
